@@ -304,10 +304,26 @@ def ev_model(kind):
 
 
 def injective_key(k):
-    """key = or(shl(zext(x),16), zext(y)) with 16-bit x, y"""
-    return (k[0] == 'o' and k[2] == 'or' and k[3][0] == 'o' and k[3][2] == 'shl' and k[3][4] == C(32, 16)
-            and k[3][3][0] == 'o' and k[3][3][2] == 'zext' and k[3][3][3][1] == 16
-            and k[4][0] == 'o' and k[4][2] == 'zext' and k[4][3][1] == 16)
+    """the key is an injective function of its (bank, address) inputs: two-copy comparison over canonical bit vectors -
+    key(b, a) == key(b', a')  implies  (b, a) == (b', a')"""
+    from ..bdd import BDD, BV, TermBV, Unsupported
+    from ..bvproof import subst
+    syms = sorted(set(syms_of(k)), key=lambda t: t[2])
+    if not syms or len(syms) > 4:
+        return False
+    try:
+        m = BDD()
+        conv = TermBV(m)
+        ren = {t: S(t[1], t[2] + "'", t[3]) for t in syms}
+        k1 = conv(k)
+        k2 = conv(subst(k, ren))
+        same_key = m.NOT(k1.diff(k2))
+        same_in = 1
+        for t in syms:
+            same_in = m.AND(same_in, m.NOT(conv(t).diff(conv(ren[t]))))
+        return m.AND(same_key, m.NOT(same_in)) == 0
+    except Unsupported:
+        return False
 
 
 def block_extent(ctx, chk, facts, prog):
